@@ -354,15 +354,15 @@ class SplitInIntervals(Contract):
         cx.oblige("frame.data", self.data.buf.writes == 0, "frame")
 
 
-@contract(CD + ".fit", ["C09", "C19", "C12", "C13", "C11"], [dict(m=m, deps=dp) for m in (1, 3) for dp in (("alpha",), ("alpha", "beta"))], name="cond.fit",
-          thorough_cases=[dict(m=m, deps=dp) for m in (2, 5, 8) for dp in (("alpha",), ("beta",), ("alpha", "beta"))])
+@contract(CD + ".fit", ["C09", "C19", "C12", "C13", "C11"], [dict(m=m, deps=dp, refit=rf) for m in (1, 3) for dp in (("alpha",), ("alpha", "beta")) for rf in (False, True)], name="cond.fit",
+          thorough_cases=[dict(m=m, deps=dp, refit=rf) for m in (2, 5, 8) for dp in (("alpha",), ("beta",), ("alpha", "beta")) for rf in (False, True)])
 class CondFit(Contract):
     """every interval is fitted by a stand-alone fit of a COPY of the template to exactly that interval's data with
     the given method / weights; the template itself is never fitted; every dependence function is fitted to the
     (reference value, estimate) pairs of its own parameter"""
 
     def case_label(self, case):
-        return f"n_intervals={case['m']},dependent={'+'.join(case['deps'])}"
+        return f"n_intervals={case['m']},dependent={'+'.join(case['deps'])}" + (",refit_of_a_fitted_object" if case.get("refit") else "")
 
     def inputs(self, itp, case):
         cx = itp.cx
@@ -380,6 +380,15 @@ class CondFit(Contract):
         self.obj = SObj(CD, {"distribution": self.tmpl, "distribution_class": self.tmpl_class, "param_names": ["alpha", "beta"], "conditional_parameters": dict(self.deps),
                              "fixed_parameters": {}, "conditioning_values": None}, owner="arg")
         m = case["m"]
+        if case.get("refit"):
+            # the object was fitted before (to other data, any number of intervals): everything that fit left behind
+            mo = cx.sym("n_old_intervals", "int")
+            cx.assume(T.ge(mo, 1))
+            self.obj.fields["conditioning_values"] = sym_array(cx, "old_refs", (mo,), owner="call")
+            self.obj.fields["distributions_per_interval"] = [FitDist("old_interval_fit")]
+            self.obj.fields["parameters_per_interval"] = [{"alpha": real(cx, "old_alpha"), "beta": real(cx, "old_beta")}]
+            self.obj.fields["data_intervals"] = [sym_array(cx, "old_interval", (cx.sym("n_old", "int"),), owner="call")]
+            self.obj.fields["conditioning_interval_boundaries"] = [(real(cx, "old_lo"), real(cx, "old_hi"))]
         self.data = [sym_array(cx, f"interval{j}", (cx.sym(f"n{j}", "int"),)) for j in range(m)]
         self.cv = [real(cx, f"ref{j}") for j in range(m)]
         self.bounds = [(real(cx, f"lo{j}"), real(cx, f"hi{j}")) for j in range(m)]
@@ -406,6 +415,9 @@ class CondFit(Contract):
             f_weights = fa[2] if fa[2] is not None else fk.get("weights")
             cx.oblige(f"post.per_interval_fit.{j}", ok and fa[0] is not None and same_data(cx, fa[0], self.data[j]) and f_method == "some_method" and f_weights == "some_weights", "post",
                       "copy j fitted to exactly the observations of interval j with the requested method and weights")
+        cvf = self.obj.fields.get("conditioning_values")
+        cx.oblige("post.conditioning_values_of_this_fit", isinstance(cvf, SArr) and cvf.ndim == 1 and cvf.shape[0] == m and all(cx.valid(T.eq(cvf.get((j,)), self.cv[j].t)) for j in range(m)), "post",
+                  "the object remembers the reference values of THIS fit (also when it was fitted before)")
         dpi = self.obj.fields.get("distributions_per_interval")
         cx.oblige("post.distributions_per_interval", isinstance(dpi, list) and len(dpi) == m and all(a is b for a, b in zip(dpi, copies)), "post")
         for p, dep in self.deps.items():
@@ -419,3 +431,56 @@ class CondFit(Contract):
             cx.oblige(f"post.dependence_inputs.{p}.x", okx and all(T.eq(x.get((j,)), self.cv[j].t) is True or cx.valid(T.eq(x.get((j,)), self.cv[j].t)) for j in range(m)), "post", "x = the interval reference values")
             oky = isinstance(y, list) and len(y) == m
             cx.oblige(f"post.dependence_inputs.{p}.y", oky and all(y[j] is copies[j].params[p] for j in range(m)), "post", "y = the per-interval estimates of THIS parameter")
+
+    def replay(self, case, ob):
+        """fit a real ConditionalDistribution twice (the second time to other intervals): the dependence functions must see the
+        reference values of the fit that calls them, each interval its own data, the template stays unfitted"""
+        import numpy as np
+        from virocon import distributions as vd
+        from virocon.dependencies import DependenceFunction
+
+        def lin(x, a, b):
+            return a + b * x
+        seen = []
+
+        class Spy(DependenceFunction):
+            def fit(s, x, y, *a, **k):
+                seen.append((np.array(x, dtype=float).tolist(), np.array(y, dtype=float).tolist()))
+                return super().fit(x, y, *a, **k)
+        deps = {p: Spy(lin, bounds=[(None, None), (None, None)]) for p in case["deps"]}
+        fixed = {"f_gamma": 0.0}
+        fixed.update({"f_" + q: 1.5 for q in ("alpha", "beta") if q not in case["deps"]})
+        tmpl = vd.WeibullDistribution(**fixed)
+        before = dict(tmpl.parameters)
+        cd = vd.ConditionalDistribution(tmpl, deps)
+        rng = np.random.RandomState(3)
+        m = max(case["m"], 3)   # a two-parameter dependence function needs at least that many intervals natively
+        rounds = ([m + 1] if case.get("refit") else []) + [m]
+        problems = []
+        for rnd, mm in enumerate(rounds):
+            refs = [1.0 + 10 * rnd + j for j in range(mm)]
+            data = [(1.0 + 0.3 * (j + rnd)) * rng.weibull(1.5 + 0.2 * j, 400) for j in range(mm)]
+            bounds = [(r - 0.5, r + 0.5) for r in refs]
+            del seen[:]
+            try:
+                cd.fit(data, refs, bounds, "mle", None)
+            except Exception as e:
+                return {"confirmed": True, "detail": f"fit number {rnd + 1} raised {type(e).__name__}: {e}"}
+            if np.array(cd.conditioning_values, dtype=float).tolist() != refs:
+                problems.append(f"fit {rnd + 1}: conditioning_values {np.array(cd.conditioning_values).tolist()} != reference values of this fit {refs}")
+            for x, y in seen:
+                if x != refs:
+                    problems.append(f"fit {rnd + 1}: dependence function fitted to x={x}, reference values of this fit {refs}")
+            if len(cd.distributions_per_interval) != mm:
+                problems.append(f"fit {rnd + 1}: {len(cd.distributions_per_interval)} interval distributions for {mm} intervals")
+            else:
+                for j, dj in enumerate(cd.distributions_per_interval):
+                    alone = vd.WeibullDistribution(**fixed)
+                    alone.fit(data[j], "mle", None)
+                    if not np.allclose([dj.parameters[q] for q in ("alpha", "beta", "gamma")], [alone.parameters[q] for q in ("alpha", "beta", "gamma")], rtol=1e-6, atol=1e-9):
+                        problems.append(f"fit {rnd + 1}: interval {j} estimate {dj.parameters} differs from a stand-alone fit {alone.parameters}")
+        if dict(tmpl.parameters) != before:
+            problems.append(f"template parameters changed: {before} -> {dict(tmpl.parameters)}")
+        if problems:
+            return {"confirmed": True, "detail": "; ".join(problems[:4])}
+        return {"confirmed": False, "detail": f"{len(rounds)} fit(s) of a real ConditionalDistribution: references, per-interval estimates and template as required"}
